@@ -443,10 +443,16 @@ K("C12/uci-list/push", ["C12", "C13", "C02"], "chain::verif_kani_b::c12_push_uci
   "for all UTF-8 strings of <= 6 bytes pushed onto the initial position: push_uci_list returns Ok or an error, never panics; on Ok exactly the whitespace-separated tokens were applied; on Err the error position is the failing token and the chain holds exactly the tokens before it (position unchanged if none)",
   bounded="strings of <= 6 bytes, initial position", timeout=5400, mem_gb=24, mem_est=8)
 
-K("C01/public-glue", ["C01", "C06", "C07", "C09", "C19"], "movegen::verif_kani_b::c01_public_generator_glue",
-  ["movegen::semilegal::gen_* / gen_*_into (macro)", "movegen::legal::gen_* (macro)", "movegen::has_legal_moves", "movegen::san_candidates", "movegen::san_pawn_capture_candidates", "movegen::UnsafeMoveList::push", "movegen::LegalFilter::push"],
-  "for ALL boards with one king each, with the MoveGenImpl methods imported as 'pushes its class' and Checker::is_legal as a free boolean: each semilegal::<g>_into runs method <g> instantiated for the side to move into the caller's sink; semilegal::<g> returns the same as a list; legal::<g> returns exactly that list filtered by the legality decision (real ArrayVec::retain); has_legal_moves is true iff the filtered refusing run of gen_for_has_legal_moves is refused; the SAN candidate wrappers run their method for the side to move through the legality filter",
-  assumes=GEN_ALL + ISLEGAL + ["C01/gen/dispatch"], timeout=2400, mem_gb=16)
+GLUE = "for ALL boards with one king each, with the MoveGenImpl methods imported as 'pushes its class' and Checker::is_legal as a free boolean: "
+K("C01/public-glue/into", ["C01", "C06", "C19"], "movegen::verif_kani_b::c01_glue_into", ["movegen::semilegal::gen_*_into (macro)"],
+  GLUE + "each semilegal::<g>_into runs method <g>, instantiated for the side to move, into the caller's sink, exactly once", assumes=GEN_ALL + ["C01/gen/dispatch"], timeout=1800)
+K("C01/public-glue/has-legal-san", ["C07", "C09", "C01"], "movegen::verif_kani_b::c01_glue_has_legal_and_san", ["movegen::has_legal_moves", "Board::has_legal_moves", "movegen::san_candidates", "movegen::san_pawn_capture_candidates", "movegen::LegalFilter::push"],
+  GLUE + "has_legal_moves is true iff the filtered refusing run of gen_for_has_legal_moves (for the side to move) is refused; the SAN candidate wrappers run their method for the side to move through the legality filter",
+  assumes=ISLEGAL + EXITS + ["C01/gen/dispatch", "C07/legal-filter"], timeout=1800)
+for _i, _g in enumerate(("gen_all", "gen_capture", "gen_simple", "gen_simple_no_promote", "gen_simple_promote")):
+    K("C01/public-glue/list/%s" % _g, ["C01", "C06", "C19"], "movegen::verif_kani_b::c01_glue_list_%s" % _g, ["movegen::semilegal::%s (macro)" % _g, "movegen::legal::%s (macro)" % _g, "movegen::UnsafeMoveList::push"],
+      GLUE + "semilegal::%s returns what method %s pushes, as a list; legal::%s returns exactly that list filtered by the legality decision (real UnsafeMoveList and ArrayVec::retain)" % (_g, _g, _g),
+      assumes=GEN_ALL + ISLEGAL + ["C01/gen/dispatch"], timeout=2400, mem_gb=24, mem_est=10, tier="quick" if _g == "gen_all" else "thorough")
 
 
 def by_id():
